@@ -65,7 +65,7 @@ def _project(r):
 
 
 def _event(r, op, **kw):
-    ev = dict(op=op, lay="none", m="none", keep=False, f=False, typ="none", cls="none", k="none", i=0,
+    ev = dict(op=op, lay="none", m="none", keep=False, f=False, typ="none", cls="none", k="none", i=0, chg=True,
               refused=False, err=False, stored=True, qok=True, frame=True, errtext="")
     ev.update(kw)
     ev["obs"] = _project(r)
